@@ -79,8 +79,8 @@ func canonHeaders(h http.Header, order []string) [][2]string {
 }
 
 type countReader struct {
-	r io.Reader
-	n int
+	r    io.Reader
+	n    int
 	b    bytes.Buffer
 	keep bool
 }
